@@ -407,6 +407,18 @@ func (n *CandidateNode) UpdateFrom(other *CandidateNode, prefs assignPreferences
 		n.Style = other.Style
 	}
 
+	if n.Kind == ScalarNode && other.Kind != ScalarNode && n.LineComment != "" && other.LineComment == "" {
+		// a line comment cannot stay behind a value that becomes a block map or sequence: the emitter would
+		// write it after the next entry (k: 1 # c  ->  k:\n  n: 1 ... - # c), producing text that does not parse.
+		// Keep it as a head comment of the same node instead.
+		if n.HeadComment == "" {
+			n.HeadComment = n.LineComment
+		} else {
+			n.HeadComment = n.HeadComment + "\n" + n.LineComment
+		}
+		n.LineComment = ""
+	}
+
 	n.Content = make([]*CandidateNode, 0)
 	n.Kind = other.Kind
 	n.AddChildren(other.Content)
